@@ -257,7 +257,7 @@ def sig_hash(sig: str) -> str:
 
 
 def write_replay(pid: str, trace: dict, violation: dict, digest: str) -> str:
-    d = os.path.join(VERIF, "replays", pid)
+    d = os.path.join(os.environ.get("VERIF_REPLAY_DIR") or os.path.join(VERIF, "replays"), pid)
     os.makedirs(d, exist_ok=True)
     p = os.path.join(d, "%s-%s.json" % (sig_hash(violation["sig"]), trace.get("seed", 0)))
     doc = dict(trace)
@@ -581,7 +581,8 @@ def write_evidence(pid, mod, tier, verif_seed, items, reported, harness_errors, 
         "wall_s": round(wall, 2),
         "violations": len(reported),
     }
-    d = os.path.join(VERIF, "evidence")
+    # (development runs against scratch trees may redirect their evidence; registered commands never set this)
+    d = os.environ.get("VERIF_EVIDENCE_DIR") or os.path.join(VERIF, "evidence")
     os.makedirs(d, exist_ok=True)
     with open(os.path.join(d, "%s.json" % pid), "w") as f:
         json.dump(ev, f, indent=1, sort_keys=True, default=str)
